@@ -87,7 +87,7 @@ def run(ctx: Ctx) -> int:
     if len(bad) > 2:
         raise MachineryError(f"{len(bad)} runs failed in the harness: {bad[0]['harness_exc']}")
     obs = [o for o in obs if "harness_exc" not in o]
-    keys = ("svc", "n", "pos", "k", "reached", "sent", "queued", "rp", "peer_saw", "acc_released", "acc_aborted", "acc_alive")
+    keys = ("svc", "n", "pos", "k", "reached", "sent", "queued", "rp", "peer_saw", "acc_released", "acc_aborted", "acc_alive", "raises", "final_status")
     tr = [dict({k: o.get(k, False) for k in keys}, id=j + 1) for j, o in enumerate(obs)]
     vs = validate_traces(ctx, "Trace_Release", tr, name="release")
     for j, o in enumerate(obs):
